@@ -20,6 +20,10 @@ type Knobs struct {
 	FinalCRLF    bool `json:"final_crlf,omitempty"`    // trailer block ends with CRLF
 	TrailersOnly bool `json:"trailers_only,omitempty"` // body-less gRPC response: status in headers
 	BareType     bool `json:"bare_type,omitempty"`     // application/grpc instead of application/grpc+proto
+	// OmitDetailsBin: a gRPC error without details is sent without
+	// grpc-status-details-bin (as most servers do); the message then travels
+	// only in the percent-encoded grpc-message.
+	OmitDetailsBin bool `json:"omit_details_bin,omitempty"`
 }
 
 // RespSpec describes a response to build.
@@ -68,7 +72,7 @@ func grpcStatusMetadata(st *Status, k Knobs) http.Header {
 	if st.Message != "" || st.Code != 0 {
 		md.Set("Grpc-Message", PercentEncode(st.Message, k.LowerHex))
 	}
-	if st.Code != 0 {
+	if st.Code != 0 && !(k.OmitDetailsBin && len(st.Details) == 0) {
 		md.Set("Grpc-Status-Details-Bin", EncodeBin(EncodeStatusProto(st), k.PadBase64))
 	}
 	return md
